@@ -57,11 +57,12 @@ def prog_text(beh):
         else: out.append(k)
     return '; '.join(out)
 
-def pdrive(variant, args, behaviours, work, tag, timeout, jobs):
-    """run the driver over the behaviours in `jobs` parallel chunks; indices are global"""
+def pdrive(variant, args, behaviours, work, tag, timeout, jobs, chunk=200):
+    """run the driver over the behaviours in `jobs` parallel chunks; indices are global.
+    '{j}' in an argument is replaced by the chunk number."""
     from concurrent.futures import ThreadPoolExecutor
     n = len(behaviours)
-    jobs = max(1, min(jobs, (n + 199) // 200))
+    jobs = max(1, min(jobs, (n + chunk - 1) // chunk))
     size = (n + jobs - 1) // jobs
     def one(j):
         lo = j * size
@@ -69,7 +70,7 @@ def pdrive(variant, args, behaviours, work, tag, timeout, jobs):
         inp = '%s/beh%s.%d.ndjson' % (work, tag, j)
         out = '%s/res%s.%d.ndjson' % (work, tag, j)
         vf.write_ndjson(inp, chunk)
-        res, cr = vf.drive(variant, args, inp, out, timeout=timeout)
+        res, cr = vf.drive(variant, [a.replace('{j}', str(j)) for a in args], inp, out, timeout=timeout)
         return ({lo + i: r for i, r in res.items()}, [(lo + i, rc, t) for (i, rc, t) in cr])
     results, crashes = {}, []
     with ThreadPoolExecutor(max_workers=jobs) as ex:
@@ -80,7 +81,7 @@ def pdrive(variant, args, behaviours, work, tag, timeout, jobs):
     return results, crashes
 
 def replay(chk, behaviours, K, opts, owned, variant='seq', tag='', timeout=3000, sig_of=None, confirm=True,
-           mode='prog', jobs=8):
+           mode='prog', jobs=8, chunk=200):
     """behaviours: list of JSON strings.  owned: set of failure-kind prefixes this property owns.
     Returns (n_run, n_nontrivial)."""
     work = '%s/work/%s' % (vf.BUILD, chk.pid)
@@ -88,7 +89,8 @@ def replay(chk, behaviours, K, opts, owned, variant='seq', tag='', timeout=3000,
     inp = '%s/beh%s.ndjson' % (work, tag)
     out = '%s/res%s.ndjson' % (work, tag)
     args = [mode, '--K=%d' % K] + opts
-    results, crashes = pdrive(variant, args, behaviours, work, tag, timeout, jobs)
+    results, crashes = pdrive(variant, args, behaviours, work, tag, timeout, jobs, chunk)
+    chk.last_results = results
     nontrivial = sum(1 for r in results.values() if r.get('nontrivial', 0) > 0)
     failing = []
     for i, r in sorted(results.items()):
